@@ -495,7 +495,10 @@ def evaluate_z3_mod(
     if not z3.is_mod(expr):
         return Nothing
 
-    return Some(construct_result(lambda args: args[0] % args[1], children_results))
+    # SMT-LIB: the result of mod is non-negative also for negative divisors
+    return Some(
+        construct_result(lambda args: args[0] % abs(args[1]), children_results)
+    )
 
 
 def evaluate_z3_pow(
